@@ -645,7 +645,8 @@ def inverseTopology : Nat → Path → Val → KVs → Val → Except Err Val
         | _ => .error .typeError) inverse
 
 /-- processes and steps of a composite, each dictionary level listed in the order in which
-`_get_composite_state_recur` walks `set(processes.keys() | steps.keys())` -/
+`_get_composite_state_recur` walks it (declaration order, processes first — fix c6db333; before
+that, the iteration order of a `set` of the names) -/
 def compositeStateRecur (fuel : Nat) (useInit : Bool) (path : Path) :
     List (String × Procs) → Val → Except Err KVs
   | kids, topology => go kids topology []
